@@ -14,28 +14,28 @@ def machine(test, quick, thorough, steps=30, tsteps=None, **kw):
 SPECS = {
     "C01": dict(
         units=[machine("TestC01", 640, 12000, steps=32)],
-        floor=0.45,
+        floor=0.35,
         rule="rapid state machine over signed transactions through DeliverTx/Commit/Query: AOL messages by listed, delisted and foreign accounts on prefix-colliding topic names, crash, restart and genesis export/import; a case is non-trivial when a record was acknowledged and afterwards its writer was removed, or a crash/restart/export-import happened, or a second topic exists; distinct = distinct sequence of (step kind, message types, outcome class)",
         assumptions=MACHINE_ASSUME),
     "C02": dict(
         units=[machine("TestC02", 640, 12000, steps=32)],
-        floor=0.45,
+        floor=0.35,
         rule="AOL machine with independently chosen signer sets, sign modes, fee payers and authz grant/revoke/exec; oracle = transition validity of the aol store diff of every DeliverTx; non-trivial = >=1 refused AOL attempt and >=1 accepted writer-list change or append; distinct as in C01",
         assumptions=MACHINE_ASSUME),
     "C13": dict(
         units=[machine("TestC13", 480, 9000, steps=32)],
-        floor=0.30,
+        floor=0.22,
         rule="AOL machine; after every commit counters and complete paging walks (key/offset style, many limits, both directions, count_total on/off) equal the model; non-trivial = >=3 topics, a writer deleted and a multi-page walk",
         assumptions=MACHINE_ASSUME),
-    "C03": dict(units=[machine("TestC03", 640, 12000, steps=30)], floor=0.40, rule=None, assumptions=MACHINE_ASSUME),
-    "C04": dict(units=[machine("TestC04", 640, 12000, steps=30)], floor=0.40, rule=None, assumptions=MACHINE_ASSUME),
-    "C05": dict(units=[machine("TestC05", 560, 9000, steps=32)], floor=0.30, rule=None, assumptions=MACHINE_ASSUME),
-    "C11": dict(units=[machine("TestC11", 640, 9000, steps=24)], floor=0.60, rule=None, assumptions=MACHINE_ASSUME),
-    "C06": dict(units=[machine("TestC06", 640, 12000, steps=34)], floor=0.35, rule=None, assumptions=MACHINE_ASSUME),
-    "C12": dict(units=[machine("TestC12", 560, 10000, steps=34)], floor=0.30, rule=None, assumptions=MACHINE_ASSUME),
-    "C08": dict(units=[machine("TestC08", 400, 6000, steps=34), dict(test="TestKnownC08", kind="plain", quick=1, thorough=1)], floor=0.40, rule=None, assumptions=MACHINE_ASSUME),
-    "C07": dict(units=[machine("TestC07", 640, 10000, steps=30)], floor=0.50, rule=None, assumptions=MACHINE_ASSUME),
-    "C09": dict(units=[machine("TestC09", 320, 5000, steps=36)], floor=0.50, rule=None, assumptions=MACHINE_ASSUME),
+    "C03": dict(units=[machine("TestC03", 640, 12000, steps=30)], floor=0.35, rule=None, assumptions=MACHINE_ASSUME),
+    "C04": dict(units=[machine("TestC04", 640, 12000, steps=30)], floor=0.25, rule=None, assumptions=MACHINE_ASSUME),
+    "C05": dict(units=[machine("TestC05", 560, 9000, steps=32)], floor=0.25, rule=None, assumptions=MACHINE_ASSUME),
+    "C11": dict(units=[machine("TestC11", 640, 9000, steps=24)], floor=0.45, rule=None, assumptions=MACHINE_ASSUME),
+    "C06": dict(units=[machine("TestC06", 640, 12000, steps=34)], floor=0.22, rule=None, assumptions=MACHINE_ASSUME),
+    "C12": dict(units=[machine("TestC12", 560, 10000, steps=34)], floor=0.18, rule=None, assumptions=MACHINE_ASSUME),
+    "C08": dict(units=[machine("TestC08", 400, 6000, steps=34), dict(test="TestKnownC08", kind="plain", quick=1, thorough=1)], floor=0.28, rule=None, assumptions=MACHINE_ASSUME),
+    "C07": dict(units=[machine("TestC07", 640, 10000, steps=30)], floor=0.35, rule=None, assumptions=MACHINE_ASSUME),
+    "C09": dict(units=[machine("TestC09", 320, 5000, steps=36)], floor=0.30, rule=None, assumptions=MACHINE_ASSUME),
     "C10": dict(units=[machine("TestC10", 400, 6000, steps=36)], floor=0.40, rule=None, assumptions=MACHINE_ASSUME),
     "C14": dict(units=[dict(test="TestC14Enum", quick=16, thorough=640, shards=16, timeout=1800), dict(test="TestC14", quick=40000, thorough=2000000, timeout=1800),
                        dict(test="TestKnownC14", kind="plain", quick=1, thorough=1)],
@@ -60,16 +60,16 @@ SPECS = {
                 floor=0.10, exhaustive=False,
                 rule="rapid-generated pairs of 0-4 component tuples (lengths 0,1,2,254,255,256+,random; contents built from other components' length bytes) related by one boundary move/merge/split/truncate/bit flip, arbitrary and near-valid byte strings for the decoder, the complete length grid {0,1,254,255,256}^k for k<=3 with hostile fill bytes, and the four AOL key types over 1..255-byte addresses, validator-admitted topic names and extreme offsets; oracles: round trip, independent reference encoder, injectivity, prefix-exactness, rejection without truncation, decode-or-error, genesis string round trip; non-trivial = the two tuples differ while their encodings are in a byte-prefix relation or have equal length (pairs), differing tuples (grid), non-20-byte address / 69-70 byte topic / offset > 2^32 (AOL keys); distinct = distinct (Encode(x),Encode(y))",
                 assumptions=["Go's bytes/strings packages", "sdk.AccAddress bech32 conversion (SDK, trusted)"]),
-    "C19": dict(units=[machine("TestC19", 240, 4000), dict(test="TestC19Config", kind="plain", quick=1, thorough=1)], floor=0.40, rule=None, assumptions=MACHINE_ASSUME + ["only the newest upgrade descriptor can be executed end to end; for earlier descriptors only the store bookkeeping is checked", "the pre-upgrade binary is emulated by the same code with the newest descriptor removed from the exported app.Upgrades list"]),
+    "C19": dict(units=[machine("TestC19", 240, 4000), dict(test="TestC19Config", kind="plain", quick=1, thorough=1)], floor=0.35, rule=None, assumptions=MACHINE_ASSUME + ["only the newest upgrade descriptor can be executed end to end; for earlier descriptors only the store bookkeeping is checked", "the pre-upgrade binary is emulated by the same code with the newest descriptor removed from the exported app.Upgrades list"]),
     "C20": dict(units=[dict(test="TestC20Snapshot", race=True, quick=32, thorough=800, shards=16, timeout=1500),
                        dict(test="TestC20PureRace", race=True, quick=320, thorough=8000, shards=16, timeout=1500),
                        dict(test="TestC20KeyStore", quick=32, thorough=640, shards=16, shrinktime="10s", timeout=1500),
                        dict(test="TestC20KeyStore", race=True, quick=0, thorough=32, shards=16, shrinktime="10s", thorough_only=True, timeout=1500)],
-                floor=0.40, rule=None,
+                floor=0.35, rule=None,
                 assumptions=["the Go scheduler is not controlled by the harness: snapshot and race claims are statistical over generated workloads; the wait-cycle detector is sound when it fires but cannot prove freedom",
                              "latest-height queries and CheckTx/Simulate are serialised against Commit (CheckTx/Simulate against every ABCI call) as CometBFT does; strictly historical queries are fully unsynchronised",
                              "race reports whose racing accesses are in cosmos-sdk / iavl / cometbft code are counted but not attributed to panacea-core"]),
-    "C15": dict(units=[machine("TestC15", 640, 12000, steps=30)], floor=0.50, rule=None, assumptions=MACHINE_ASSUME),
+    "C15": dict(units=[machine("TestC15", 640, 12000, steps=30)], floor=0.45, rule=None, assumptions=MACHINE_ASSUME),
 }
 
 # rules for machine checks are stated once, in the Go registry; `bin/check` asks the test
